@@ -258,33 +258,32 @@ func confirmAndMinimise(b builds, cfg tierCfg, viol *proto.Record) *proto.Record
 				cur = c
 			}
 			m.cands++
-			// delta debugging over the event list: remove chunks of decreasing size
-			for chunk := (len(cur.Run.Events) + 1) / 2; chunk >= 1 && !m.exhausted() && len(cur.Run.Events) > 0; {
-				var cands []*proto.Record
-				for s := 0; s < len(cur.Run.Events); s += chunk {
-					c := cloneRec(cur)
-					e := s + chunk
-					if e > len(c.Run.Events) {
-						e = len(c.Run.Events)
-					}
-					c.Run.Events = append(c.Run.Events[:s:s], c.Run.Events[e:]...)
-					cands = append(cands, c)
-				}
-				if i, _ := m.firstHolding(cands); i >= 0 {
-					cur = cands[i]
-					if chunk > len(cur.Run.Events) {
-						chunk = len(cur.Run.Events)
-					}
-					continue
-				}
-				if chunk == 1 {
-					break
-				}
-				chunk = (chunk + 1) / 2
-			}
+			cur = m.shrinkEvents(cur)
 		}
 		if t1, o1, e1 := countOps(cur); t1 == t0 && o1 == o0 && e1 == e0 {
 			break
+		}
+	}
+	// 3b. re-search: with fewer tasks the recorded schedule usually no longer fits; look
+	// for a fresh schedule of the reduced workload (8 processes x 25 seeded schedules)
+	if cur.Build != "ref" && !probabilistic {
+		for changed := true; changed && !m.exhausted(); {
+			changed = false
+			nt, _, _ := countOps(cur)
+			if nt <= 2 {
+				break
+			}
+			for t := len(cur.Run.Tasks) - 1; t >= 0 && !changed && !m.exhausted(); t-- {
+				if len(cur.Run.Tasks[t].Ops) == 0 {
+					continue
+				}
+				c := cloneRec(cur)
+				c.Run.Tasks[t].Ops = nil
+				if found := m.search(c); found != nil {
+					cur = m.shrinkEvents(found)
+					changed = true
+				}
+			}
 		}
 	}
 	// 4. drop environment events attached to operations
@@ -479,4 +478,68 @@ func renderTrace(b builds, r *proto.Record) []string {
 		}
 	}
 	return out
+}
+
+// search looks for a schedule of c's workload that shows the wanted violation; the
+// result is confirmed by an ordinary replay in a fresh process.
+func (m *minimiser) search(c *proto.Record) *proto.Record {
+	const procs, each = 8, 25
+	out := make([]*proto.Record, procs)
+	var wg sync.WaitGroup
+	for k := 0; k < procs; k++ {
+		wg.Add(1)
+		go func(k int) {
+			defer wg.Done()
+			res, err := searchOnce(m.b, c, each, k*each)
+			if err == nil && res.Record != nil && sameViolation(m.want, res.Record) {
+				out[k] = res.Record
+			}
+		}(k)
+	}
+	wg.Wait()
+	m.cands += procs
+	for _, r := range out {
+		if r == nil {
+			continue
+		}
+		r.Violations = nil
+		cand := cloneRec(r)
+		cand.Violations = m.want.Violations
+		if rec, ok := m.holds(cand); ok {
+			cand.Violations = rec.Violations
+			return cand
+		}
+	}
+	return nil
+}
+
+// shrinkEvents: delta debugging over the schedule / fault event list.
+func (m *minimiser) shrinkEvents(cur *proto.Record) *proto.Record {
+	if !cur.Run.Scripted {
+		return cur
+	}
+	for chunk := (len(cur.Run.Events) + 1) / 2; chunk >= 1 && !m.exhausted() && len(cur.Run.Events) > 0; {
+		var cands []*proto.Record
+		for s := 0; s < len(cur.Run.Events); s += chunk {
+			c := cloneRec(cur)
+			e := s + chunk
+			if e > len(c.Run.Events) {
+				e = len(c.Run.Events)
+			}
+			c.Run.Events = append(c.Run.Events[:s:s], c.Run.Events[e:]...)
+			cands = append(cands, c)
+		}
+		if i, _ := m.firstHolding(cands); i >= 0 {
+			cur = cands[i]
+			if chunk > len(cur.Run.Events) {
+				chunk = len(cur.Run.Events)
+			}
+			continue
+		}
+		if chunk == 1 {
+			break
+		}
+		chunk = (chunk + 1) / 2
+	}
+	return cur
 }
